@@ -56,6 +56,8 @@ pub enum Op {
     TrySet(u32),
     Get,
     Clear,
+    /// first operation of a thread: it works with the one handle it was given (no second copy of it is kept)
+    Lean,
 }
 
 pub type Prog = Vec<Vec<Op>>;
@@ -74,6 +76,7 @@ pub fn show_prog(p: &Prog) -> String {
                     Op::TrySet(v) => format!("try{}", v),
                     Op::Get => "get".into(),
                     Op::Clear => "clear".into(),
+                    Op::Lean => "lean".into(),
                 })
                 .collect::<Vec<_>>()
                 .join(".")
@@ -159,7 +162,9 @@ fn to_owned(e: SyntaxElementRef<'_, K, Payload>) -> Elem {
 }
 
 fn run_thread(cx: ThreadCtx<'_>, root: Node, ops: &[Op]) {
-    let mut cur: Elem = NodeOrToken::Node(root.clone());
+    let lean = ops.first() == Some(&Op::Lean);
+    // a lean thread navigates from its only handle; `reset` is then a no-op
+    let (root, mut cur): (Option<Node>, Elem) = if lean { (None, NodeOrToken::Node(root)) } else { (Some(root.clone()), NodeOrToken::Node(root)) };
     let mut pos: Option<usize> = Some(0);
     let mut stack: Vec<(Elem, Option<usize>)> = vec![];
     for (opi, op) in ops.iter().enumerate() {
@@ -245,10 +250,13 @@ fn run_thread(cx: ThreadCtx<'_>, root: Node, ops: &[Op]) {
                 cx.sched.record_op(cx.t, "pop".into());
             }
             Op::Reset => {
-                cur = NodeOrToken::Node(root.clone());
-                pos = Some(0);
+                if let Some(r) = &root {
+                    cur = NodeOrToken::Node(r.clone());
+                    pos = Some(0);
+                }
                 cx.sched.record_op(cx.t, "reset".into());
             }
+            Op::Lean => {}
             Op::Set(_) | Op::TrySet(_) | Op::Get | Op::Clear => {
                 let node: Node = match &cur {
                     NodeOrToken::Node(n) => n.clone(),
@@ -338,7 +346,7 @@ pub fn execute(tree: &RefTree, prog: &Prog, root_first: bool, choose: &mut dyn F
         while let Some(en) = sched.wait_quiescent() {
             if en.is_empty() {
                 eprintln!("scheduler: no enabled thread (deadlock)");
-                std::process::exit(3);
+                sched.report_deadlock();
             }
             let c = choose(&en, last);
             steps.push((en.clone(), c));
@@ -726,6 +734,12 @@ fn fixed_programs(what: &str) -> Vec<(Prog, bool)> {
             // for the tree with one deduplicated sub-tree at two positions of equal offset: both copies are visited
             (vec![vec![n("fcn"), n("fcn")], vec![Op::Child(1), n("fcn")]], false),
             (vec![vec![n("fc"), n("ns")], vec![n("fcn"), n("fcn"), n("up"), n("ns"), n("fcn")]], false),
+            // for the tree with a zero-length token in front of another token of the same parent
+            (vec![vec![n("fc"), n("ns"), n("ns")], vec![n("lc"), n("ps")]], false),
+            (vec![vec![n("ft"), n("nt"), n("nt")], vec![n("lt"), n("pt")], vec![Op::Child(1)]], true),
+            // threads that hold exactly one handle while they create elements (the other one finishes and lets go meanwhile)
+            (vec![vec![Op::Lean, n("fcn")], vec![Op::Lean, n("fcn")]], true),
+            (vec![vec![Op::Lean, n("fcn"), n("fc")], vec![Op::Lean, n("fcn")], vec![Op::Lean, n("lc")]], true),
         ],
         "lifecycle" => vec![
             (vec![vec![n("fc")], vec![n("fc")]], true),
@@ -734,6 +748,8 @@ fn fixed_programs(what: &str) -> Vec<(Prog, bool)> {
             (vec![vec![Op::Dup, Op::Dup, Op::Pop], vec![n("lc")]], false),
             (vec![vec![n("fc"), n("fc")], vec![n("fc")], vec![Op::Dup]], true),
             (vec![vec![n("ft")], vec![n("ft"), Op::Reset]], true),
+            (vec![vec![Op::Lean, n("fcn")], vec![Op::Lean, n("fcn")]], true),
+            (vec![vec![Op::Lean, n("fc")], vec![Op::Lean, n("fc"), Op::Dup, Op::Pop]], true),
         ],
         _ => vec![
             (vec![vec![Op::TrySet(1)], vec![Op::TrySet(2)]], false),
@@ -778,6 +794,9 @@ fn random_program(rng: &mut Rng, what: &str) -> (Prog, bool) {
             };
             ops.push(op);
         }
+        if what != "data" && rng.chance(1, 3) {
+            ops.insert(0, Op::Lean);
+        }
         p.push(ops);
     }
     (p, rng.chance(1, 2))
@@ -799,6 +818,8 @@ pub fn conc_trees() -> Vec<RefTree> {
             RefTree::Node(1, vec![RefTree::Node(2, vec![])]),
             RefTree::Tok(10, "x".into()),
         ]),
+        // a zero-length token directly in front of another token of the same parent: same offset, two positions
+        RefTree::Node(0, vec![RefTree::Tok(10, "x".into()), RefTree::Tok(11, "".into()), RefTree::Tok(12, "+".into()), RefTree::Node(1, vec![RefTree::Tok(11, "".into()), RefTree::Tok(10, "y".into())])]),
     ]
 }
 
@@ -836,6 +857,8 @@ pub fn run_conc(what: &str, seed: u64, tier: &str, outdir: &str) {
             &trees[3]
         } else if what == "traverse" && (12..14).contains(&pi) {
             &trees[4]
+        } else if what == "traverse" && (14..16).contains(&pi) {
+            &trees[5]
         } else if pi < n_fixed {
             &trees[pi % 4]
         } else {
